@@ -624,9 +624,9 @@ class BuiltinMixin:
             self.trusted_used.add("objects of dict subclasses (_PropertyDict, PatternDict): their mapping is obj_dict(x); dict methods not overridden behave as dict's")
         if k == "dict":
             if name == "items":
-                return [(st, Val(t, kind="dict_items"))]
+                return [(st, Val(t, kind="dict_items", origin=getattr(recv, "origin", None)))]
             if name == "values":
-                return [(st, Val(t, kind="dict_values"))]
+                return [(st, Val(t, kind="dict_values", origin=getattr(recv, "origin", None)))]
             if name == "keys":
                 return [(st, Val(t, kind="dict"))]
             if name == "get":
